@@ -523,12 +523,31 @@ func valueOf(in ssa.Instruction) ssa.Value {
 func loopHeaderOf(in ssa.Instruction) *ssa.BasicBlock {
 	for b := in.Block(); b != nil; b = b.Idom() {
 		for _, p := range b.Preds {
-			if b.Dominates(p) && reachesBlock(in.Block(), p) {
+			// natural loop of back edge p->b: blocks that reach p without passing through b
+			if b.Dominates(p) && (in.Block() == b || reachesAvoiding(in.Block(), p, b)) {
 				return b
 			}
 		}
 	}
 	return in.Block()
+}
+
+func reachesAvoiding(from, to, avoid *ssa.BasicBlock) bool {
+	seen := map[*ssa.BasicBlock]bool{avoid: true}
+	stack := []*ssa.BasicBlock{from}
+	for len(stack) > 0 {
+		b := stack[len(stack)-1]
+		stack = stack[:len(stack)-1]
+		if b == to {
+			return true
+		}
+		if seen[b] {
+			continue
+		}
+		seen[b] = true
+		stack = append(stack, b.Succs...)
+	}
+	return false
 }
 
 func reachesBlock(from, to *ssa.BasicBlock) bool {
